@@ -91,6 +91,24 @@ static void timed_out(void *c)
 	close(rfd.fd);
 }
 
+static int wfd = -1, wtries;
+
+static void w_poll(void *c)
+{
+	struct stat st;
+
+	if ((stat(report_path, &st) == 0 && st.st_size > 0) || ++wtries > 100) {
+		iv_popen_request_close(&req);
+		close(wfd);
+		return;
+	}
+	iv_validate_now();
+	tmo.expires = iv_now;
+	tmo.expires.tv_nsec += 50000000;
+	if (tmo.expires.tv_nsec >= 1000000000) { tmo.expires.tv_nsec -= 1000000000; tmo.expires.tv_sec++; }
+	iv_timer_register(&tmo);
+}
+
 int main(int argc, char **argv)
 {
 	static char script[512];
@@ -102,7 +120,9 @@ int main(int argc, char **argv)
 	if (!type_w)
 		snprintf(script, sizeof script, "readlink /proc/self/fd/0; readlink /proc/self/fd/1; readlink /proc/self/fd/2");
 	else
-		snprintf(script, sizeof script, "(readlink /proc/self/fd/0; readlink /proc/self/fd/1; readlink /proc/self/fd/2) > %s; cat > /dev/null", report_path);
+		/* (the shell's own descriptors: inside a redirection or a substitution 1 would be something else) */
+		snprintf(script, sizeof script, "a=$(readlink /proc/$$/fd/0); b=$(readlink /proc/$$/fd/1); c=$(readlink /proc/$$/fd/2); "
+			 "printf '%%s\\n%%s\\n%%s\\n' \"$a\" \"$b\" \"$c\" > %s.tmp; mv %s.tmp %s; cat > /dev/null", report_path, report_path, report_path);
 	printf("{\"t\":0,\"e\":\"Reset\",\"id\":\"popen-real-%s\",\"m\":\"real\",\"nf\":0}\n", type_w ? "w" : "r");
 	iv_init();
 	IV_POPEN_REQUEST_INIT(&req);
@@ -126,11 +146,16 @@ int main(int argc, char **argv)
 		iv_fd_register(&rfd);
 		iv_timer_register(&tmo);
 	} else {
-		/* write something, then close: the child's cat sees EOF and exits */
+		/* write something; close once the child has written its report (or after 5 s): its cat
+		 * sees EOF and exits */
 		if (write(fd, "hello\n", 6) < 0)
 			perror("write");
-		iv_popen_request_close(&req);
-		close(fd);
+		wfd = fd;
+		tmo.handler = w_poll;
+		tmo.expires = iv_now;
+		tmo.expires.tv_nsec += 50000000;
+		if (tmo.expires.tv_nsec >= 1000000000) { tmo.expires.tv_nsec -= 1000000000; tmo.expires.tv_sec++; }
+		iv_timer_register(&tmo);
 	}
 	iv_main();
 	iv_deinit();
